@@ -31,7 +31,7 @@ def run(tier, seed):
     quick = tier == 'quick'
     src = open(os.path.join(ROOT, 'harness', 'c08_compile.py')).read()
     hs, batch = [], Batch()
-    T_ = 170 if quick else 1500
+    T_ = 300 if quick else 1500
     try:
         for t in range(3):
             for i in range(15):
